@@ -63,6 +63,7 @@ fn flip_one<B: Backend>(sum: &mut Summary, bk: &str, is_str: bool, join: bool, s
     let cells: Vec<_> = items.iter().map(|vars| (std::rc::Rc::new(vars.iter().map(|v| { let mut b = v.clone(); b.extend(std::iter::repeat(secret).take(64)); (b, v.len()) }).collect::<Vec<_>>()),
         std::rc::Rc::new(std::cell::Cell::new(0usize)), std::rc::Rc::new(std::cell::RefCell::new(Vec::new())))).collect();
     let it = FlipIter { items: std::rc::Rc::new(cells.clone()), pos: 0, shared };
+    let errs_before = crate::alloc::snap().errors;
     let r: Result<Vec<u8>, String> = quiet_catch(AssertUnwindSafe(|| {
         if is_str { let h: HipStr<'static, B> = if join { HipStr::join(it, std::str::from_utf8(sep).unwrap()) } else { HipStr::concat(it) }; h.verif_bytes().as_slice().to_vec() }
         else { let h: HipByt<'static, B> = if join { HipByt::join(it, sep) } else { HipByt::concat(it) }; h.as_slice().to_vec() }
@@ -70,6 +71,9 @@ fn flip_one<B: Backend>(sum: &mut Summary, bk: &str, is_str: bool, join: bool, s
     let desc = format!("{} with an AsRef that changes its answer from call to call ({}) ty={} bk={} items={:?} sep={:?} prof={}", if join { "join" } else { "concat" },
         if shared { "same items in both passes" } else { "fresh items per pass" }, if is_str { "str" } else { "byt" }, bk,
         items.iter().map(|vs| vs.iter().map(|v| hex(v)).collect::<Vec<_>>()).collect::<Vec<_>>(), hex(sep), profile());
+    if crate::alloc::snap().errors != errs_before {
+        sum.violation(format!("{{\"what\":{},\"observed\":{},\"expected\":\"no write outside the destination block\"}}", jstr(&desc), jstr(&format!("the allocator monitor reports {}", crate::alloc::error_detail()))));
+    }
     match r {
         Ok(bytes) => {
             let handed: Vec<Vec<Vec<u8>>> = cells.iter().map(|c| c.2.borrow().clone()).collect();
@@ -88,6 +92,7 @@ fn pieces_coq(ps: &[Vec<u8>]) -> String { format!("[{}]", ps.iter().map(|p| coq_
 fn one<B: Backend>(sum: &mut Summary, w: &mut CaseWriter, seen: &mut std::collections::HashSet<String>, bk: &str, is_str: bool, join: bool, first: &[Vec<u8>], second: &[Vec<u8>], sep: &[u8]) {
     sum.evaluations += 1;
     let adv = Adv { first: std::rc::Rc::new(first.to_vec()), second: std::rc::Rc::new(second.to_vec()), pos: 0, is_clone: false };
+    let errs_before = crate::alloc::snap().errors;
     let r: Result<(Vec<u8>, bool, bool), String> = quiet_catch(AssertUnwindSafe(|| {
         if is_str {
             let h: HipStr<'static, B> = if join { HipStr::join(adv, std::str::from_utf8(sep).unwrap()) } else { HipStr::concat(adv) };
@@ -99,6 +104,12 @@ fn one<B: Backend>(sum: &mut Summary, w: &mut CaseWriter, seen: &mut std::collec
     }));
     let same = first == second;
     let std_result: Vec<u8> = if join { second.join(sep) } else { second.concat() };
+    // C03 inside multi-piece construction: whatever the outcome (value or panic), nothing was written outside a block's requested size
+    if crate::alloc::snap().errors != errs_before {
+        sum.violation(format!("{{\"what\":{},\"observed\":{},\"expected\":\"no write outside the destination block\"}}",
+            jstr(&format!("{} ty={} bk={} first={:?} second={:?} sep={:?} prof={}", if join { "join" } else { "concat" }, if is_str { "str" } else { "byt" }, bk, first.iter().map(|p| p.len()).collect::<Vec<_>>(), second.iter().map(|p| p.len()).collect::<Vec<_>>(), sep.len(), profile())),
+            jstr(&format!("the allocator monitor reports {}", crate::alloc::error_detail()))));
+    }
     let desc = format!("{} ty={} bk={} first={:?} second={:?} sep={:?} prof={}", if join { "join" } else { "concat" }, if is_str { "str" } else { "byt" }, bk,
         first.iter().map(|p| p.len()).collect::<Vec<_>>(), second.iter().map(|p| p.len()).collect::<Vec<_>>(), sep.len(), profile());
     let out = match &r {
@@ -127,12 +138,15 @@ fn slices_forms<B: Backend>(sum: &mut Summary, bk: &str, ps: &[Vec<u8>], sep: &[
     sum.evaluations += 1;
     let refs: Vec<&[u8]> = ps.iter().map(|p| &p[..]).collect();
     let exp_c = ps.concat(); let exp_j = ps.join(sep);
-    let (c, j) = if is_str {
+    let view = |h: &HipByt<'static, B>| -> (Vec<u8>, bool) { (h.as_slice().to_vec(), h.is_normalized() && (h.len() <= 23) == h.is_inline()) };
+    let ((c, cn), (j, jn)) = if is_str {
         let strs: Vec<&str> = ps.iter().map(|p| std::str::from_utf8(p).unwrap()).collect();
-        (HipStr::<B>::concat_slices(&strs).as_bytes().to_vec(), HipStr::<B>::join_slices(&strs, std::str::from_utf8(sep).unwrap()).as_bytes().to_vec())
+        (view(HipStr::<B>::concat_slices(&strs).verif_bytes()), view(HipStr::<B>::join_slices(&strs, std::str::from_utf8(sep).unwrap()).verif_bytes()))
     } else {
-        (HipByt::<B>::concat_slices(&refs).as_slice().to_vec(), HipByt::<B>::join_slices(&refs, sep).as_slice().to_vec())
+        (view(&HipByt::<B>::concat_slices(&refs)), view(&HipByt::<B>::join_slices(&refs, sep)))
     };
+    if !cn { sum.violation(format!("{{\"what\":{},\"observed\":\"result not in normalised representation\",\"expected\":\"inline up to 23 bytes, heap above\"}}", jstr(&format!("concat_slices ty={} bk={} {:?}", if is_str { "str" } else { "byt" }, bk, ps.iter().map(|p| p.len()).collect::<Vec<_>>())))); }
+    if !jn { sum.violation(format!("{{\"what\":{},\"observed\":\"result not in normalised representation\",\"expected\":\"inline up to 23 bytes, heap above\"}}", jstr(&format!("join_slices ty={} bk={} {:?} sep={}", if is_str { "str" } else { "byt" }, bk, ps.iter().map(|p| p.len()).collect::<Vec<_>>(), sep.len())))); }
     if c != exp_c { sum.violation(format!("{{\"what\":{},\"observed\":{},\"expected\":{}}}", jstr(&format!("concat_slices bk={} {:?}", bk, ps.iter().map(|p| p.len()).collect::<Vec<_>>())), jstr(&hex(&c)), jstr(&hex(&exp_c)))); }
     if j != exp_j { sum.violation(format!("{{\"what\":{},\"observed\":{},\"expected\":{}}}", jstr(&format!("join_slices bk={} {:?}", bk, ps.iter().map(|p| p.len()).collect::<Vec<_>>())), jstr(&hex(&j)), jstr(&hex(&exp_j)))); }
 }
@@ -143,7 +157,9 @@ fn drive<B: Backend>(sum: &mut Summary, w: &mut CaseWriter, seen: &mut std::coll
     // all piece lists of 0..=3 pieces over the length alphabet (exhaustive over length shapes)
     let mut shapes: Vec<Vec<usize>> = vec![vec![]];
     for a in lens { shapes.push(vec![*a]); for b in lens { shapes.push(vec![*a, *b]); if tier == "thorough" || (*a <= 12 && *b <= 12) { for c in lens { shapes.push(vec![*a, *b, *c]); } } } }
-    let seps: Vec<Vec<u8>> = vec![vec![], b",".to_vec(), b", ".to_vec()];
+    let seps: Vec<Vec<u8>> = vec![vec![], b",".to_vec(), b", ".to_vec(), b" | ".to_vec()];
+    // totals of 19..=26 bytes split in two or three pieces: the window around the inline capacity, whatever the separator length
+    for total in 19..=26usize { for k in [1usize, 5, 11] { if k < total { shapes.push(vec![k, total - k]); if k + 2 < total { shapes.push(vec![k, 1, total - k - 1]); } } } }
     for is_str in [false, true] {
         for sh in &shapes {
             let ps: Vec<Vec<u8>> = sh.iter().enumerate().map(|(i, n)| piece(*n, i as u8 * 7)).collect();
